@@ -134,6 +134,16 @@ func checkC12(c *run.Ctx) {
 			}
 		}
 		dims := refmodel.SortedKeys(perm)
+		// a chain inside one Go map: a key that is exactly the token of one dimension, whose value in the permutation
+		// is exactly the token of another dimension, next to a key that is that other token (single pass: the first key
+		// becomes the second one's old spelling, the second becomes its own dimension's value)
+		chain := !anon && len(dims) >= 2 && i%10 != 9 && i%7 == 0
+		if chain {
+			perm[dims[0]] = "{{matrix." + dims[1] + "}}"
+			if v := perm[dims[1]]; v == "{{matrix."+dims[0]+"}}" || v == "{{matrix."+dims[1]+"}}" || v == "" {
+				perm[dims[1]] = "end-of-chain"
+			}
+		}
 		unknownMode := i%10 == 9 // plant a token naming a dimension the permutation lacks
 		uid := 0
 		planted := ""
@@ -213,6 +223,13 @@ func checkC12(c *run.Ctx) {
 		}
 		for k, m := 0, r.IntN(4); k < m; k++ {
 			sp.Extras = append(sp.Extras, c12KV{K: str("extra_key"), V: val("extra", 0)})
+		}
+		if chain {
+			va, vb := "first", "second"
+			sp.Extras = append(sp.Extras, c12KV{K: "{{matrix." + dims[0] + "}}", V: c12Val{S: &va}}, c12KV{K: "{{matrix." + dims[1] + "}}", V: c12Val{S: &vb}})
+			sp.PlugSources = append(sp.PlugSources, "chain#v1")
+			sp.PlugCfg = append(sp.PlugCfg, c12Val{Map: []c12KV{{K: "{{matrix." + dims[1] + "}}", V: c12Val{S: &vb}}, {K: "{{matrix." + dims[0] + "}}", V: c12Val{S: &va}}, {K: "plain", V: c12Val{S: &va}}}})
+			c.Count("token_key_chains_planted", 1)
 		}
 		if unknownMode {
 			tok := "{{matrix.nosuchdim}}"
